@@ -7,7 +7,8 @@ VARIABLES cfg, m
 
 \* names built to collide: shared prefixes, differing last element, hyphen / digit / upper case,
 \* near-misses of the built-in name
-Pool == { <<"a", "b">>, <<"a", "b", "c">>, <<"a", "bc">>, <<"a", "b-c">>, <<"A", "b">>, <<"a", "b1">>,
+\* (every element but the first may begin with a digit: "a.3d", "a.7-zip")
+Pool == { <<"a", "b">>, <<"a", "b", "c">>, <<"a", "bc">>, <<"a", "b-c">>, <<"A", "b">>, <<"a", "b1">>, <<"a", "3d">>, <<"a", "7-zip">>,
           <<"org", "varlink", "servic">>, <<"org", "varlink", "service", "x">> }
 
 Names == Pool \cup {Svc}
@@ -30,7 +31,7 @@ InvExact    == ExactMatchOnly(cfg, m)
 InvBuiltin  == BuiltinFirst(cfg, m)
 InvMonotone == \A x \in Pool : Monotone(cfg, {x}, m)
 
-DescrNames == << <<"a", "b">>, <<"a", "b", "c">>, <<"a", "bc">>, <<"a", "b-c">>, <<"A", "b">>, <<"a", "b1">>,
+DescrNames == << <<"a", "b">>, <<"a", "b", "c">>, <<"a", "bc">>, <<"a", "b-c">>, <<"A", "b">>, <<"a", "b1">>, <<"a", "3d">>, <<"a", "7-zip">>,
                  <<"org", "varlink", "servic">>, <<"org", "varlink", "service", "x">>, Svc, <<"zz", "q">>, <<"a">>, <<"">> >>
 DescrArgs == [i \in 1..Len(DescrNames) |-> [k |-> "name", name |-> DescrNames[i]]]
                \o << [k |-> "absent", name |-> <<>>], [k |-> "illtyped", name |-> <<>>] >>
